@@ -197,8 +197,13 @@ func (h *OperationProvider) getProvisionalFiles(provisionalIndexURI string, alte
 		}
 	}
 
-	if len(files.ProvisionalIndex.Chunks) == 0 {
+	if len(files.ProvisionalIndex.Chunks) == 0 || files.ProvisionalIndex.Chunks[0].ChunkFileURI == "" {
 		return nil, errors.Errorf("provisional index file is missing chunk file URI")
+	}
+
+	// this version of the protocol has exactly one chunk file per batch
+	if len(files.ProvisionalIndex.Chunks) > 1 {
+		return nil, errors.Errorf("provisional index file has more than one chunk file URI")
 	}
 
 	chunkURI := files.ProvisionalIndex.Chunks[0].ChunkFileURI
